@@ -31,7 +31,7 @@ import _c18_stub as S  # noqa: E402
 SRC = ["src/pynguin/testcase/export.py", "src/pynguin/assertion/assertion_to_ast.py", "src/pynguin/generator.py",
        "src/pynguin/assertion/assertiontraceobserver.py", "src/pynguin/testcase/testcase.py"]
 SUT_DIR = vlib.VERIF / "corpus" / "C18" / "sut"
-SUT_MODULES = ["numeric", "strings", "containers", "state", "enums", "floats", "rnd", "errors", "shapes.area", "foreign", "exits", "kwclash", "declared", "rndkey", "summary", "testnames", "nestedexc"]
+SUT_MODULES = ["numeric", "strings", "containers", "state", "enums", "floats", "rnd", "errors", "shapes.area", "foreign", "exits", "kwclash", "declared", "rndkey", "summary", "testnames", "nestedexc", "shadow"]
 MODES = ["MUTATION_ANALYSIS", "SIMPLE", "NONE", "CHECKED_MINIMIZING"]
 GEN = str(Path(__file__).resolve().parent / "_c18_gen.py")
 
